@@ -156,7 +156,7 @@ def _exh(sw, ch, maxlen):
 @st.composite
 def strategy(draw):
     sr = draw(st.sampled_from([8, 10, 100, 1000, 16000, 44100]))
-    N = draw(st.integers(0, 40))
+    N = draw(st.integers(0, 40) if sr > 10 else st.one_of(st.integers(0, 40), st.integers(40, 130)))
     base = dict(sr=sr, sw=draw(st.sampled_from([1, 2, 4])), ch=draw(st.integers(1, 3)), N=N,
                 salt=draw(st.integers(0, 10**6)))
     view = draw(st.sampled_from(["samples", "seconds", "millis"]))
